@@ -93,6 +93,30 @@ def after_call(amb, acc, what, phase, case):
     return True
 
 
+def register_custom_spec():
+    """docs/meta_message_types.rst: a text-carrying custom meta message whose
+    spec imports encode_string/decode_string from mido.midifiles.meta."""
+    import mido.midifiles.meta as meta
+    if 'program_name' in meta._META_SPEC_BY_TYPE:
+        return
+    from mido.midifiles.meta import (MetaSpec, add_meta_spec, decode_string,
+                                     encode_string)
+
+    class MetaSpec_program_name(MetaSpec):
+        type_byte = 0x08
+        attributes = ['name']
+        defaults = ['']
+
+        def decode(self, message, data):
+            message.name = decode_string(data)
+
+        def encode(self, message):
+            return encode_string(message.name)
+
+    add_meta_spec(MetaSpec_program_name)
+    rm.TABLE['program_name'] = (0x08, [('name', 'str', None, None, '')])
+
+
 def text_file(mido, cs, text, type_name):
     attr = rm.attrs_of(type_name)[0]
     tr = mido.MidiTrack([
@@ -295,10 +319,11 @@ def worker(shard):
     kind = shard[0]
     if kind == 'roundtrip':
         cs = shard[1]
+        register_custom_spec()
         for text in TEXTS:
             if not encodable(text, cs):
                 continue
-            for t in rm.TEXT_TYPES:
+            for t in rm.TEXT_TYPES + ('program_name',):
                 for outer in (None, 'cp1252'):
                     check_roundtrip(mido, cs, text, t, outer, acc)
         acc.sample({'charset': cs, 'texts': [t[:8] for t in TEXTS]}, cap=1)
@@ -331,7 +356,7 @@ def run():
     rep.coverage['exhaustive'] = True
     rep.coverage['rule'] = (
         f'round trip: {len(CHARSETS)} charsets x {len(TEXTS)} texts '
-        f'(encodable pairs) x 9 text-carrying meta types x ambient {{default, '
+        f'(encodable pairs) x 9 text-carrying meta types and a custom one registered with add_meta_spec() as documented x ambient {{default, '
         f'outer meta_charset("cp1252")}}: payload bytes in the file (reference '
         f'decoder) == text.encode(charset), load gives the text back. Faults '
         f'on load: every truncation offset of the saved file, every track '
